@@ -33,29 +33,7 @@ def corpus():
     yield with_cc({"op": "tree", "tree": ["list", False, 2, None, 3, ["", ") ", 1], [["text", "aaa bbb ccc"], ["text", "x"]]], "ops": [["render", 40], ["render", 12]]})
 
 
-def compare(case, impl, model):
-    for k, (a, b) in enumerate(zip(impl, model)):
-        if b.get("err") == "OutOfDomain": return None
-        if a != b: return "render #%d: implementation %r / model %r" % (k, a, b)
-    return None
-
-
-def module_state_scan():
-    """names assigned at module level or through `global` in the rendering modules (beyond imports, classes, functions, __all__, log)"""
-    import ast
-    bad = []
-    for f in (os.environ.get("VERIF_REPO", "/repo") + "/simpleline/render/widgets.py", os.environ.get("VERIF_REPO", "/repo") + "/simpleline/render/containers.py"):
-        tree = ast.parse(open(f).read())
-        for node in tree.body:
-            if isinstance(node, (ast.Assign, ast.AugAssign, ast.AnnAssign)):
-                names = [t.id for t in (node.targets if isinstance(node, ast.Assign) else [node.target]) if isinstance(t, ast.Name)]
-                if any(n not in ("__all__", "log") for n in names): bad.append((f, names))
-        for node in ast.walk(tree):
-            if isinstance(node, (ast.Global, ast.Nonlocal)): bad.append((f, node.names))
-            if isinstance(node, ast.FunctionDef):
-                for d in node.args.defaults + node.args.kw_defaults:
-                    if isinstance(d, (ast.List, ast.Dict, ast.Set, ast.Call)): bad.append((f, "mutable default in " + node.name))
-    return bad
+compare = tree_compare
 
 
 def monitor(case, obs):
@@ -90,8 +68,6 @@ def monitor(case, obs):
             if obs[k].get("err") != fresh.get("err") or obs[k].get("lines") != fresh.get("lines"):
                 return "render #%d at width %d on the kept object gives %r, a freshly built equal tree gives %r" % (k, a, obs[k], fresh)
             k += 1
-    scan = module_state_scan()
-    if scan: return "module-level mutable state in the rendering modules: %r" % scan[:3]
     return None
 
 
